@@ -57,6 +57,15 @@ Lemma len_nil {A} : len (@nil A) = 0. Proof. reflexivity. Qed.
 Lemma len_app {A} (a b : list A) : len (a ++ b) = len a + len b.
 Proof. unfold len. rewrite app_length. lia. Qed.
 
+(* `visible` is the first `limit` octets (the comparison only avoids computing
+   with huge declared lengths) *)
+Lemma visible_eq s : visible s = match lim s with None => rem s | Some l => firstN l (rem s) end.
+Proof.
+  unfold visible. destruct (lim s) as [l|]; [|reflexivity].
+  destruct (len (rem s) <=? l) eqn:E; [|reflexivity].
+  unfold firstN, len in *. symmetry. apply firstn_all2. lia.
+Qed.
+
 (* ---- stepping tactics for sequences of take_u8 on explicit lists ---- *)
 Ltac solve_lim_ge :=
   first [ exact I
